@@ -63,6 +63,14 @@ PROPS = {
         'modelled_not_verified': ["as C01"],
         'assumptions': ["the reference lexer in Lean (SqlairModel/Lexer.lean) is the specification of literal/comment regions"],
     },
+    'C03': {'layers': ['l2'], 'modelled_not_verified': ["database/sql conversion of Go values to driver values is applied by the harness translator (canonical value text), not modelled", "reflect is modelled by type descriptors and value trees produced by reflection over the compiled zoo types (translator in the trusted base)", "error identity under Go map iteration is not compared, only accept/reject (and insert/bulk family)"], 'assumptions': []},
+    'C04': {'layers': ['l2', 'sqlite'], 'modelled_not_verified': ["database/sql conversion of Go values to driver values is applied by the harness translator (canonical value text), not modelled", "reflect is modelled by type descriptors and value trees produced by reflection over the compiled zoo types (translator in the trusted base)", "error identity under Go map iteration is not compared, only accept/reject (and insert/bulk family)"], 'assumptions': ["O2: provider order dependence outside the one-provider-per-column domain is reproduced literally"]},
+    'C05': {'layers': ['l2'], 'modelled_not_verified': ["database/sql conversion of Go values to driver values is applied by the harness translator (canonical value text), not modelled", "reflect is modelled by type descriptors and value trees produced by reflection over the compiled zoo types (translator in the trusted base)", "error identity under Go map iteration is not compared, only accept/reject (and insert/bulk family)"], 'assumptions': []},
+    'C06': {'layers': ['l3'], 'modelled_not_verified': ["database/sql convertAssign / Scanner.Scan are a parameter `conv` answered per case by the installed database/sql (oracle)", "destinations are flattened field stores produced by the harness translator", "the state of a direct target whose conversion failed is unspecified"], 'assumptions': ["foreign columns are not of the exact form _sqlair_<n> (the library's reserved alias space)"]},
+    'C07': {'layers': ['l2'], 'modelled_not_verified': ["database/sql conversion of Go values to driver values is applied by the harness translator (canonical value text), not modelled", "reflect is modelled by type descriptors and value trees produced by reflection over the compiled zoo types (translator in the trusted base)", "error identity under Go map iteration is not compared, only accept/reject (and insert/bulk family)"], 'assumptions': ["the executable bindTypes of the model is the specification of well-typedness"]},
+    'C08': {'layers': ['l2'], 'modelled_not_verified': ["database/sql conversion of Go values to driver values is applied by the harness translator (canonical value text), not modelled", "reflect is modelled by type descriptors and value trees produced by reflection over the compiled zoo types (translator in the trusted base)", "error identity under Go map iteration is not compared, only accept/reject (and insert/bulk family)"], 'assumptions': ["the executable validateInputs/bindInputs of the model is the specification of acceptable argument lists"]},
+    'C16': {'layers': ['l2'], 'modelled_not_verified': ["database/sql conversion of Go values to driver values is applied by the harness translator (canonical value text), not modelled", "reflect is modelled by type descriptors and value trees produced by reflection over the compiled zoo types (translator in the trusted base)", "error identity under Go map iteration is not compared, only accept/reject (and insert/bulk family)"] + ["data races are not expressible in the model"], 'assumptions': []},
+    'C17': {'layers': ['sqlite'], 'modelled_not_verified': ["SQLite's parser and semantics are observed (real go-sqlite3), not modelled"], 'assumptions': []},
     'C09': {'layers': ['l5'], 'modelled_not_verified': ["per-connection re-prepare of an sql.Stmt is database/sql's (exact logs use one pooled connection; several connections are checked by invariants)"], 'assumptions': []},
     'C10': {'layers': ['l5'], 'modelled_not_verified': ["which objects the Go runtime considers reachable (liveness of the Query closure's captured Statement/DB, Iterator->driverStmt edge) and finalizer scheduling are the enabling conditions of the finalizer steps: an assumption, sampled by forced-GC histories"], 'assumptions': []},
     'C11': {'layers': ['l5'], 'modelled_not_verified': ["as C10", "database/sql defers the driver-level close until dependent rows are closed"], 'assumptions': []},
@@ -179,5 +187,16 @@ CLAIMED.update({
         'note': CACHE_NOTE, 'technique': 'Lean 4 proof (invariant + termination measure of gc) + forced-GC history correspondence with cache snapshot hook', 'design_ref': 'DESIGN.md section 5 C11',
     },
 })
+
+CLAIMED['C06'] = {
+    'text': "Proved in Lean for every type table, outputs list, column list, row, destination list and conversion function: the value under the alias of output k lands in exactly the "
+            "member output k designates (scan_by_alias), independent of column order and foreign columns (scan_perm_invariant: equal stores, maps as unordered maps), untouched members "
+            "keep their value, NULL semantics per target kind, and errors detected by ScanArgs (missing column, unused destination) leave every destination unchanged; only exact "
+            "_sqlair_<n> names are markers (both directions). Tied to query.go/valuelocator.go/scan.go by the L3 correspondence on scripted rows.",
+    'note': "Trusted: Lean kernel; the scan model is a hand port over flattened destinations (translator in the harness) with database/sql's conversion as a parameter answered by an "
+            "oracle that asks the installed database/sql; the state of a direct target whose conversion failed is left unspecified; the outputs list comes from the L2 model",
+    'technique': 'Lean 4 proof (store algebra, permutation of commuting writes) + scripted-row correspondence with conversion oracle',
+    'design_ref': 'DESIGN.md section 5 C06',
+}
 
 NOT_CLAIMED_REASON = {}
